@@ -380,7 +380,7 @@ def gen_chain(g, filters=0.0, roots=0.0, doc=None, small=False):
                                 break
                         else:
                             it, isp = '', []
-                        pat = r.choice(['a', '^a', 'b$', '.', 'x', '^$', '1', '^ab$', 'a|b', '[a-c]', '\\d', 'a b', 'b?c', '(?i)x', '^[^a]', 'y|^$'])
+                        pat = r.choice(['a', '^a', 'b$', '.', 'x', '^$', '1', '^ab$', 'a|b', '[a-c]', '\\d', 'a b', 'b?c', '(?i)x', '^[^a]', 'y|^$', 'b*', '^x?', 'z*', '(ab)?', '^(..)?$'])
                         rx = re.compile(pat.encode('ascii'))
 
                         def tx(x, isp=isp, rx=rx):
@@ -875,6 +875,14 @@ class C03(EvalProp):
         for i, path in enumerate([b'$[*].ufail()', b'$..a.ufail()', b'$.*.ufail()', b'$[0:].a.ufail()', b'$[?(@.a)].a.ufail().id()', b'$[*].a.id().ufail()']):
             udoc = ('a', [('o', [(b'a', ('n', float(k)))]) for k in range(1, r.randint(3, 5))])
             cs.append(Case('uf%d' % i, path, [udoc], gens.FILTER_FUNCS, gens.AGG_FUNCS, False, False, 'eval', meta={'family': 'uncomparable-error'}))
+        # thirty to fifty nested wildcards whose remaining path matches nothing (every level takes its error path): linear work
+        for i, depth in enumerate([30, 40, 48] + [r.randint(30, 50)]):
+            nest = ('n', 1.0)
+            for lv in range(depth + 1):
+                nest = ('a', [nest]) if (lv + i) % 3 else ('o', [(b'k', nest)])
+            wc = ''.join(r.choice(['[*]', '.*']) for _ in range(depth))
+            for tail in ['.a', '[5]', '']:
+                cs.append(Case('nw%d_%s' % (i, tail), ('$' + wc + tail).encode(), [nest], meta={'family': 'nested-failing-wildcards'}))
         two = ('o', [(b'a', ('o', [(b'x', ('n', 1.0))])), (b'b', ('o', [(b'y', ('n', 2.0))]))])
         hit = ('o', [(b'a', ('o', [(b'zzz', ('n', 9.0))])), (b'b', ('o', [(b'y', ('n', 2.0))]))])
         for i, (path, d0, d1) in enumerate([(b'$[?(@.zzz)]', two, hit), (b'$.*[?(@.zzz)]', ('a', [two]), ('a', [('o', [(b'p', hit), (b'q', two)])])),
@@ -995,6 +1003,21 @@ class C04(EvalProp):
         # an earlier caller's array is overwritten by the later calls (the runner re-reads every document at the end)
         for c in cs[::2]:
             c.docs = c.docs + [mutate_doc(g.r, c.docs[0]), g.doc(2, False, 0)]
+        # documents assembled from sub-slices of ONE backing array (every array's capacity reaches into its neighbours): an append to
+        # a slice that belongs to the document would overwrite another array of it
+        for k, c in enumerate(cs):
+            if k % 5 == 0:
+                c.packed = 1 + k % 7
+        for i in range(max(40, n // 40)):
+            def arr_(lo):
+                return ('a', [r0.choice([('n', float(lo + j)), ('o', [(b'x', ('n', float(lo + j)))]), ('a', [('n', float(lo + j))])]) for j in range(r0.randint(1, 3))])
+            r0 = g.r
+            doc = ('o', [(kk, arr_(10 * j)) for j, kk in enumerate(r0.sample([b'a', b'b', b'c', b'z', b'k'], r0.randint(2, 4)))] + [(b'm', ('o', [(b'x', ('n', 99.0))]))])
+            ag = r0.choice(['amax', 'cnt', 'arr', 'first'])
+            path = r0.choice(["$['a','b'].%s()" % ag, '$.*.%s()' % ag, '$..x', '$..[0]', '$[*][*]', "$['a','z','b']", '$..*', '$.a.%s()' % ag, '$[?(@[0])]', '$..x.%s()' % ag])
+            c = Case('pk%d' % i, path.encode(), [doc, doc], [], [ag] if '%s' % ag in path else [], False, False, 'eval', meta={'nsteps': 2, 'family': 'packed-arrays'})
+            c.packed = 1 + i % 9
+            cs.append(c)
         for i in range(n // 8):
             doc = g.doc(3, False, 0)
             path = g.r.choice([b'$[*]', b'$.*', b'$..*', b'$..[*]', b'$.*.*', b'$[*][*]', b'$..a[*]', b'$.list[*]', b'$[0:]', b'$..[0:2]'])
@@ -1708,9 +1731,70 @@ class C05(Prop):
             if len(res.samples) < 5 and len(outcomes) >= 2:
                 res.sample({'path': c.path.decode('utf-8', 'replace'), 'docs': [core.doc_json_text(d) for d in c.docs],
                             'call outcomes': [calls[k][:120] for k in sorted(calls)]})
+        # a user function that PANICS in the middle of a filter operand that had already collected values (the caller recovers, as the
+        # runner does): the calls that follow — of the same parsed function and fresh ones — return what they return in a fresh history.
+        # Panics are outside the model: on the documents without a string the function is the identity, so the model is asked about `id`
+        pcs = []
+        for i in range(max(10, n // 120)):
+            def items(bad):
+                vs = [('n', float(r.randint(1, 9))) for _ in range(r.randint(2, 4))]
+                return ('a', vs + [('s', b'x')] + vs[:r.randint(0, 1)] if bad else vs)
+            def pdoc(bad):
+                els = [('o', [(b'items', items(False)), (b'id', ('n', float(j)))]) for j in range(r.randint(1, 3))]
+                if bad:
+                    els.insert(r.randint(0, len(els)), ('o', [(b'items', items(True)), (b'id', ('n', 9.0))]))
+                return ('a', els)
+            docs = [pdoc(r.random() < 0.5) for _ in range(r.randint(3, 7))]
+            docs[r.randint(0, len(docs) - 2)] = pdoc(True)
+            path = r.choice([b'$[?(@.items[*].pstr())]', b'$[?(@.items[*].pstr())].id', b'$[?(@.items[0:].pstr())].id', b'$[?(@.items..*.pstr())].id',
+                             b'$[?(@.items[*].pstr() || @.id > 0)].id', b'$..[?(@.items[*].pstr())].id'])
+            pcs.append((Case('pn%d' % i, path, docs, ['pstr'], [], meta={'family': 'panic-history'}), [any(any(x[0] == 's' for x in e[1][0][1][1]) for e in d[1]) for d in docs]))
+        self.panic_histories(res, pcs)
+
+    def panic_histories(self, res, pcs):
+        raws, mcs = [], []
+        for c, bad in pcs:
+            ops = [dict(op='parse', slot=0, mutate=False, **op_cfg(c))]
+            for d in c.docs:
+                ops.append({'op': 'call', 'slot': 0, 'doc': core.doc_go(d)})
+                ops.append(dict(op='retrieve', doc=core.doc_go(d), **op_cfg(c)))
+            raws.append(RawCase(c.id, hist_json(c.id, ops)))
+            mcs.append(Case(c.id + 'm', c.path.replace(b'pstr', b'id'), [d for d, b_ in zip(c.docs, bad) if not b_] or [('a', [])], ['id'], []))
+        gos = core.run_go(raws)
+        core.fill_tables(mcs)
+        mos = core.run_model(mcs)
+        want_panic = 'panic:' + hx(b'user filter function panicked on a string')
+        for (c, bad), g_, m in zip(pcs, gos, mos):
+            res.evaluations += 1
+            hp = harness_problem(g_) or harness_problem(m)
+            if hp:
+                res.violation('broken-correspondence', 'harness:' + hp[:60], hp, c)
+                continue
+            j = 0
+            for k, b_ in enumerate(bad):
+                oc, of = g_.get('O%d' % (1 + 2 * k), ''), g_.get('O%d' % (2 + 2 * k), '')
+                if b_:
+                    want = want_panic
+                else:
+                    want = ('%s|%s' % (m.get('R%d' % j, ''), m.get('C%d' % j, ''))).replace('F(id,', 'F(pstr,')
+                    j += 1
+                for what, o in (('call', oc), ('fresh Retrieve', of)):
+                    if (o.split('|')[0] if b_ else o) != want:
+                        res.disagreements_checked += 1
+                        res.violation('concrete', sig_of(c, 'after-panic'),
+                                      '%s %d of %r in a history with recovered panics of a user function differs from the same call in a fresh history' % (what, k, c.path),
+                                      c, expected=want, observed=o)
+            if 'STALE' in g_:
+                res.violation('concrete', sig_of(c, 'stale-result'), 'a result slice returned earlier changed later: %s' % g_['STALE'][:200], c, observed=g_['STALE'])
+            if any(bad) and not all(bad):
+                res.nontrivial.add(c.path + b'|' + core.doc_render(c.docs[0]).encode())
+            res.dist['panic-history'] += 1
 
     def replay(self, ctx, res, v):
         c = case_from_desc(v['case'])
+        if (c.meta or {}).get('family') == 'panic-history':
+            self.panic_histories(res, [(c, [any(any(x[0] == 's' for x in e[1][0][1][1]) for e in d[1]) for d in c.docs])])
+            return
         ops = [dict(op='parse', slot=0, **op_cfg(c))]
         for d in c.docs:
             ops.append({'op': 'call', 'slot': 0, 'doc': core.doc_go(d)})
@@ -1974,6 +2058,12 @@ class C07(Prop):
                 path = r.choice([b'$.*', b'$[*]', b'$..*', b'$[?(@)]', b'$.*.*', b"$..['a','b']", b'$..a', b'$[?(@.a || @.b)]']) + r.choice([b'.arr()', b'.first()', b'.arr().id()', b'.arr().tn()'])
                 cases.append(Case('p%d' % i, path, docs, ['id', 'tn'], ['arr', 'first'], meta={'perm_idx': [0, 2, 3, 5, 6, 7, 8, 9], 'nkeys': len(d[1]), 'family': 'members-to-aggregate'}))
                 continue
+            if r.random() < 0.12:
+                # … also when the aggregate stands inside a FILTER OPERAND (the argument lists are in the call log, compared below)
+                path = r.choice([b'$[?(@.*.first())]', b'$[?(@..*.arr())]', b'$..[?(@.*.first())]', b"$[?(@.*.arr().tn() == 'x')]", b'$.*[?(@.*.first())]',
+                                 b'$[?($.*.first())]', b'$[?($..*.arr())]', b'$[?(@[?(@)].arr())]'])
+                cases.append(Case('p%d' % i, path, docs, ['id', 'tn'], ['arr', 'first'], meta={'perm_idx': [0, 2, 3, 5, 6, 7, 8, 9], 'nkeys': len(d[1]), 'family': 'members-to-aggregate-in-operand'}))
+                continue
             cases.append(Case('p%d' % i, path, docs, meta={'perm_idx': [0, 2, 3, 5, 6, 7, 8, 9], 'nkeys': len(d[1])}))
             if i % 4 == 0:
                 # the same sub-container referenced from several parents (a document assembled in Go code)
@@ -1983,6 +2073,12 @@ class C07(Prop):
                 c2 = Case('al%d' % i, r.choice([b'$..*', b'$..a', b'$..[0]', b'$..[*]', b'$.*.*', b'$..[?(@)]', path]), [shared, shared], meta={'perm_idx': [0, 1], 'nkeys': 3})
                 c2.alias = True
                 cases.append(c2)
+        # function names are looked up exactly: two registered names that differ only in letter case and a path that spells a third
+        # form — not found, every time (whatever order a map hands its keys out in)
+        for i, (fl, ag, path) in enumerate([(['Twice', 'TWICE'], [], b'$.*.twice()'), ([], ['Cnt', 'CNT'], b'$.*.cnt()'), (['Id', 'iD'], ['First', 'FIRST'], b'$[?(@.id())]'),
+                                            (['Twice', 'TWICE', 'tWICE'], [], b'$..a.twice()'), ([], ['Arr', 'ARR'], b'$[?(@.*.arr())]'), (['Tn', 'TN'], [], b'$.*.tn().Tn()')]):
+            d = ('o', [(b'a', ('n', 1.0)), (b'b', ('a', [('n', 2.0), ('n', 3.0)]))])
+            cases.append(Case('cs%d' % i, path, [d] * 8, fl, ag, meta={'perm_idx': list(range(8)), 'nkeys': 2, 'family': 'function-name-case'}))
         go, mo = both_sides(cases)
         for c, g_, m in zip(cases, go, mo):
             res.evaluations += 1
@@ -1991,7 +2087,7 @@ class C07(Prop):
                 res.violation('broken-correspondence', 'harness:' + hp[:60], hp, c)
                 continue
             idx = c.meta.get('perm_idx') or list(range(len(c.docs)))
-            seqs = [g_.get('R%d' % k, 'P:' + g_.get('P', '')) for k in idx]
+            seqs = [g_.get('R%d' % k, 'P:' + g_.get('P', '')) + '|' + g_.get('C%d' % k, '') for k in idx]
             if len(set(seqs)) > 1:
                 res.violation('concrete', sig_of(c, 'order-unstable'),
                               'repeated evaluation of %r on equal documents returned different sequences' % (c.path,), c, observed=sorted(set(seqs))[:3])
@@ -2002,6 +2098,13 @@ class C07(Prop):
                     res.violation('concrete', sig_of(c, 'order-vs-model'), 'result sequence of %r differs from the model (document %d)' % (c.path, k), c,
                                   expected=b, observed=a)
                     break
+                ca, cb = g_.get('C%d' % k, ''), m.get('C%d' % k, '')
+                if ca != cb:
+                    res.disagreements_checked += 1
+                    res.violation('concrete', sig_of(c, 'argument-order-vs-model'), 'what the functions of %r received differs from the model (document %d)' % (c.path, k), c,
+                                  expected=cb, observed=ca)
+                    break
+            seqs = [s_.split('|')[0] for s_ in seqs]
             if seqs[0].startswith('ok:') and c.meta.get('nkeys', 0) >= 3 and len(values_of(seqs[0])) >= 2:
                 res.nontrivial.add((c.path, core.doc_render(c.docs[0])))
                 if len(res.samples) < 5:
@@ -2631,6 +2734,21 @@ class C09(Prop):
             op = r.choice([b'==', b'!='])
             B = (b'@.x ' + op + b' ' + ref) if r.random() < 0.5 else (ref + b' ' + op + b' @.x')
             fams.append((doc, 'andor', {'A': A, 'B': B, 'and': b'(' + A + b') && (' + B + b')', 'or': b'(' + A + b') || (' + B + b')'}))
+        # chains of three and four `||` (and `&&`) whose operands overlap: A || B || C is the union of A || B and C, whatever the overlap
+        for i in range(max(60, n // 40)):
+            ms = []
+            for j in range(r.randint(2, 6)):
+                m = [(kk, ('n', float(r.randint(0, 3)))) for kk in [b'a', b'b', b'c', b'd'] if r.random() < 0.45]
+                m.append((b'id', ('n', float(j))))
+                r.shuffle(m)
+                ms.append(('o', m))
+            body = ('a', ms) if r.random() < 0.7 else ('o', list(zip(r.sample(gens.KEY_POOL, len(ms)), ms)))
+            doc = ('o', [(b'list', body), (b'one', ('n', 1.0))])
+            ops_ = r.sample([b'@.a', b'@.b', b'@.c', b'@.d', b'@.a > 1', b'!@.b', b'@.c == $.one', b'@.d <= 1'], r.choice([3, 3, 4]))
+            joiner = b' || ' if r.random() < 0.75 else b' && '
+            A, B = joiner.join(ops_[:-1]), ops_[-1]
+            fams.append((doc, 'andor', {'A': A, 'B': B, 'and': (A + b' && ' + B) if joiner == b' && ' else (b'(' + A + b') && ' + B),
+                                        'or': (A + b' || ' + B) if joiner == b' || ' else (b'(' + A + b') || ' + B)}))
         # A && B / A || B of two plain existence tests, one of them ending in a step that may select several values (wildcard, slice,
         # union, `..`, a nested filter) and that finds NOTHING for some members (an empty array or object, a scalar, no such member)
         for i in range(max(40, n // 60)):
@@ -3143,6 +3261,10 @@ class C13(Prop):
             steps = g.gen_path(doc, 4, 0.15)
             f, a = gens.funcs_used(steps)
             cases.append(Case('l%d' % i, gens.render_path(steps), [doc], f, a, True, False, 'loc'))
+        # the bare root: the one result is the document itself, not a location of it — Set is nil whatever the root is
+        for i, rdoc in enumerate([('o', [(b'a', ('n', 1.0)), (b'b', ('o', [(b'c', ('n', 2.0))]))]), ('a', [('n', 1.0)]), ('n', 5.0), ('o', []), ('z',)]):
+            for j, text in enumerate([b'$', b' $ ', b'$  ']):
+                cases.append(Case('rt%d_%d' % (i, j), text, [rdoc], [], [], True, False, 'loc', meta={'family': 'bare-root'}))
         # members whose name is the empty string (a name like any other), at the top and below, next to array elements
         for i in range(max(10, n // 300)):
             inner = ('o', [(b'', ('n', 2.0)), (b'b', ('a', [('n', 3.0), ('o', [(b'', ('n', 4.0))])]))])
@@ -3566,6 +3688,20 @@ class C15(Prop):
             pre = r.choice([b'$[*]', b'$.*', b'$..*', b'$[0:]' if holder[0] == 'a' else b'$[*]', b'$[?(@ || 1 == 1)]'])
             path = pre + b''.join(b'.%s()' % nm.encode() for nm in names)
             cases.append(Case('fc%d' % i, path, [holder, ('a', list(reversed(vals)))], sorted(set(names)), [], meta={'family': 'function-chain-errors', 'nsteps': 1 + len(names)}))
+        # a user FILTER function that panics inside the parameter of an aggregate, or after one: the library reports no error of its
+        # own there — least of all one naming the aggregate, where nothing failed — the panic reaches the caller as it is
+        for i in range(max(16, n // 200)):
+            vals = [r.choice([('n', 2.0), ('b', True), ('z',), ('n', 7.0)]) for _ in range(r.randint(1, 4))]
+            vals.insert(r.randint(0, len(vals)), ('s', r.choice([b'x', b'abc'])))
+            holder = ('a', vals) if r.random() < 0.5 else ('o', [(b'k%d' % j, v) for j, v in enumerate(vals)])
+            ag = r.choice(['amax', 'cnt', 'arr'])
+            if i % 3 == 2:
+                path, holder = b'$.*.first().pstr()', (holder[0], [('s', b'x')] + vals if holder[0] == 'a' else [(b'a0', ('s', b'x'))] + holder[1])
+                aggs = ['first']
+            else:
+                path = r.choice([b'$.*.pstr().%s()', b'$[*].pstr().%s()', b'$..*.pstr().%s()', b'$[*].id().pstr().%s().id()']) % ag.encode()
+                aggs = [ag]
+            cases.append(Case('pf%d' % i, path, [holder], ['id', 'pstr'], aggs, meta={'family': 'panicking-filter-function-around-aggregate', 'nsteps': 3}))
         go, mo = both_sides(cases)
         for c, g_, m in zip(cases, go, mo):
             res.evaluations += 1
@@ -3574,6 +3710,16 @@ class C15(Prop):
                 res.violation('broken-correspondence', 'harness:' + hp[:60], hp, c)
                 continue
             a = g_.get('R0', 'P:' + g_.get('P', ''))
+            if c.meta.get('family') == 'panicking-filter-function-around-aggregate':
+                # outside the model (its functions return a value or fail): the only acceptable outcome is the user's own panic
+                want = 'panic:' + hx(b'user filter function panicked on a string')
+                if a != want:
+                    res.violation('concrete', sig_of(c, 'panic-reported-as-step-error'),
+                                  'a panic of a user filter function must reach the caller, not become an error of another step: %r' % (c.path,), c, expected=want, observed=a)
+                else:
+                    res.nontrivial.add((c.path, core.doc_render(c.docs[0])))
+                res.dist['panic'] += 1
+                continue
             b = m.get('R0', 'P:' + m.get('P', ''))
             fa = a if not a.startswith('ok:') else 'ok'
             fb = b if not b.startswith('ok:') else 'ok'
@@ -3602,6 +3748,13 @@ class C15(Prop):
             res.dist[cls_of(a)] += 1
 
     def replay(self, ctx, res, v):
+        c = case_from_desc(v['case'])
+        if (c.meta or {}).get('family') == 'panicking-filter-function-around-aggregate':
+            g_ = core.run_go([c])[0]
+            print('implementation: %s' % {k: x for k, x in g_.items() if k != 'id'})
+            if g_.get('R0') != 'panic:' + hx(b'user filter function panicked on a string'):
+                res.violation('concrete', 'replay', 'a panic of a user filter function must reach the caller: %r' % (c.path,), c, observed=g_.get('R0'))
+            return
         replay_generic(self, ctx, res, v, lambda o, c: {k: (x if not x.startswith('ok:') else 'ok') for k, x in o.items() if k[0] == 'R'}, 'error')
 
 
@@ -3721,6 +3874,19 @@ class C16(Prop):
                     c.pre = b'$[?(@.x == ' + raw + b')]'
                 c.meta = {'key': key, 'pos': pos, 'escaped': any(ch in "'\"\\" or ord(ch) < 0x20 for ch in key) or (dot is not None and dot != kb)}
                 want[cid] = w
+                cases.append(c)
+        # bracket lists of 65..90 quoted names (every entry selects its member, however many entries there are), in both quote styles
+        for i in range(3 if ctx.quick else 8):
+            cnt = r.choice([65, 70, 90, 66, 128])
+            names_ = ['k%02d' % j for j in range(cnt)]
+            present = [nm for nm in names_ if r.random() < 0.8 or nm == names_[-1]]
+            obj = ('o', [(nm.encode(), ('n', float(j))) for j, nm in enumerate(present)])
+            lst = ','.join((("'%s'" if (j + i) % 2 else '"%s"') % nm) for j, nm in enumerate(names_))
+            for j, (pre_, holder) in enumerate([(b'$', obj), (b'$.w', ('o', [(b'w', obj)])), (b'$..', ('a', [obj]))]):
+                cid = 'ml%d_%d' % (i, j)
+                c = Case(cid, pre_ + b'[' + lst.encode() + b']', [holder])
+                c.meta = {'key': 'k..', 'pos': 7, 'escaped': False, 'family': 'long-name-lists'}
+                want[cid] = 'ok:[%s]' % ','.join(core.doc_render(('n', float(present.index(nm)))) for nm in names_ if nm in present)
                 cases.append(c)
         # keys written with \\uXXXX escapes, surrogate pairs and UNPAIRED surrogates (which decode to U+FFFD one by one)
         for i in range(n // 8):
@@ -4200,6 +4366,24 @@ class C19(Prop):
             for _ in range(r.randint(1, 3)):
                 ops.append((dict(op='retrieve', path_hex=hx(r.choice(p_f)), doc=core.doc_go(doc), mutate=False, cfg_ref=1, allfail=True, **cfga), doc))
             hists.append((ops, True))
+        # Configs are VALUES: a copy taken when only one kind of function had been registered, then the first function of the other
+        # kind registered on the copy — the original must not know it (and the other way round)
+        for i in range(max(12, n // 100)):
+            ff, ag = r.choice(['twice', 'id', 'wrap']), r.choice(['amax', 'cnt', 'first'])
+            p_f, p_a = b'$.a.' + ff.encode() + b'()', b'$.b.' + ag.encode() + b'()'
+            if i % 2 == 0:
+                base = {'filters': [ff], 'aggs': [], 'acc': False, 'nocfg': False}
+                derived = dict(base, aggs=[ag], copy_of=1, add_filters=[], add_aggs=[ag])
+                first, probe = p_f, p_a
+            else:
+                base = {'filters': [], 'aggs': [ag], 'acc': False, 'nocfg': False}
+                derived = dict(base, filters=[ff], copy_of=1, add_filters=[ff], add_aggs=[])
+                first, probe = p_a, p_f
+            ops = [(dict(op='retrieve', path_hex=hx(first), doc=core.doc_go(doc), mutate=False, **base), doc),
+                   (dict(op='retrieve', path_hex=hx(probe), doc=core.doc_go(doc), mutate=False, **derived), doc),
+                   (dict(op='retrieve', path_hex=hx(probe), doc=core.doc_go(doc), mutate=False, cfg_ref=1, **base), doc),
+                   (dict(op='retrieve', path_hex=hx(first), doc=core.doc_go(doc), mutate=False, cfg_ref=1, **base), doc)]
+            hists.append((ops, True))
         # tens of thousands of unrelated Parse calls between two long paths that share a prefix (whatever the parser keeps across
         # calls and tells apart by a counter must survive the counter's wrap-around: 2^16 calls, give or take the harness's own)
         wdoc = ('o', [(b'aaaaaaaaaaaaaaaaaaaa', ('o', [(b'bcd', ('a', [('n', 10.0), ('n', 20.0), ('n', 30.0)])), (b'b', ('o', [(b'c', ('n', 1.0))])), (b'bbb', ('n', 2.0))]))])
@@ -4238,7 +4422,7 @@ class C19(Prop):
                 key = json.dumps([op['path_hex'], op['filters'], op['aggs'], op['acc'], op['nocfg'], core.doc_render(d), bool(op.get('allfail'))])
                 if key not in uniq:
                     cid = 'u%d' % len(uniq)
-                    op1 = dict(op, mutate=False, cfg_ref=0, burn=0)
+                    op1 = dict(op, mutate=False, cfg_ref=0, burn=0, copy_of=0)
                     uniq[key] = (RawCase(cid, hist_json(cid, [op1])),
                                  Case(cid, unhx(op['path_hex']), [d], op['filters'], op['aggs'], op['acc'], op['nocfg']))
         gos = core.run_go(raws)
@@ -4295,7 +4479,7 @@ class C19(Prop):
         g_ = core.run_go([RawCase('r', hist_json('r', ops))])[0]
         print('history :', g_)
         for k, op in enumerate(ops):
-            a = core.run_go([RawCase('a', hist_json('a', [dict(op, mutate=False, cfg_ref=0, burn=0)]))])[0]
+            a = core.run_go([RawCase('a', hist_json('a', [dict(op, mutate=False, cfg_ref=0, burn=0, copy_of=0)]))])[0]
             if a.get('O0') != g_.get('O%d' % k):
                 print('call %d alone: %s' % (k, a.get('O0')))
                 res.violation('concrete', 'replay', 'call %d differs from the same call alone' % k, v['case'])
